@@ -251,17 +251,22 @@ fn workflow(mt: &str) -> Result<Workflow, String> {
 fn probes(out: &mut Outcome, generated: &Value, text: &str) {
     let mut b4_lines = 0u64;
     let mut cur_tag = String::new();
+    let mut line_in_field = 0usize;
     for line in text.lines() {
         b4_lines += 1;
         let content = match line.strip_prefix(':').and_then(|rest| rest.find(':').map(|c| (rest, c))) {
             Some((rest, c)) => {
                 cur_tag = rest[..c].to_string();
+                line_in_field = 0;
                 &rest[c + 1..]
             }
-            None => line,
+            None => {
+                line_in_field += 1;
+                line
+            }
         };
         if content.chars().count() == 35 && !cur_tag.is_empty() && !line.starts_with('{') {
-            out.count(&format!("probe.len35.{cur_tag}"), 1);
+            out.count(&format!("probe.len35.{cur_tag}.line{line_in_field}"), 1);
         }
         let n = line.chars().count();
         if n == 35 {
@@ -594,8 +599,10 @@ impl Engine for C15 {
         if out.violation.is_none() && out.discard.is_none() {
             // per (scenario, tag) boundary-length lines: the tag is part of the key so that a rare
             // 35-character line in one particular field is kept even where such lines are common elsewhere
-            for k in out.counters.keys().filter(|k| k.starts_with("probe.len35.")).cloned().collect::<Vec<_>>() {
-                out.harvest.push(format!("{k}|{}", spec.scenario));
+            if spec.path != "interleaved" {
+                for k in out.counters.keys().filter(|k| k.starts_with("probe.len35.")).cloned().collect::<Vec<_>>() {
+                    out.harvest.push(format!("{k}|{}", spec.scenario));
+                }
             }
             for k in ["probe.drawn_string_line_ends_in_blank", "probe.drawn_string_line_starts_with_blank", "probe.drawn_string_double_blank", "probe.drawn_string_line_edge_hyphen", "probe.drawn_string_line_starts_with_colon", "probe.line_trailing_blank", "probe.amount_3plus_decimals"] {
                 if out.counters.contains_key(k) {
